@@ -651,4 +651,29 @@ example : (0:ℝ) < cubDet (0:ℝ) 3 0 ∧ regularised (0:ℝ) 3 0 = false := by
   refine ⟨by rw [hd]; norm_num, ?_⟩
   simp only [regularised, hd, hq, hlt, if_true, hs, ha', ha'', hc, RealLike.sq, mul_one, ha, hbig, Bool.or_self]
 
+
+/-! ## ext: twistable WLC and extensible FJC, derivative w.r.t. the force -/
+
+/-- `twlc_distance_derivative` is the derivative of `twlc_distance` on either side of the kink
+    `f = F_c` (the code deliberately drops the Dirac term AT the kink), inside the validity range
+    (`C S_t ≠ g²`, `g ≠ 0` where the code divides by `g`). -/
+theorem twlc_distance_hasDerivAt (f Lp Lc St C g0 g1 Fc kT : ℝ) (hf : 0 < f) (hLp : 0 < Lp) (hkT : 0 < kT) :
+    (Fc < f → C * St - (g0 + g1 * f) * (g0 + g1 * f) ≠ 0 → g0 + g1 * f ≠ 0 →
+      HasDerivAt (fun f => twlcDistance f Lp Lc St C g0 g1 Fc kT) (twlcDistanceDeriv f Lp Lc St C g0 g1 Fc kT) f) ∧
+    (f < Fc → C * St - (g0 + g1 * Fc) * (g0 + g1 * Fc) ≠ 0 → g0 + g1 * Fc ≠ 0 →
+      HasDerivAt (fun f => twlcDistance f Lp Lc St C g0 g1 Fc kT) (twlcDistanceDeriv f Lp Lc St C g0 g1 Fc kT) f) :=
+  ⟨fun h1 h2 h3 => twlc_above f Lp Lc St C g0 g1 Fc kT hf hLp hkT h1 h2 h3,
+   fun h1 h2 h3 => twlc_below f Lp Lc St C g0 g1 Fc kT hf hLp hkT h1 h2 h3⟩
+/-- non-vacuity at the defaults, `f = 40 > F_c = 30.6`: `C S_t − g² = 660000 − 43² ≠ 0`, `g = 43 ≠ 0` -/
+example : (30.6:ℝ) < 40 ∧ (440:ℝ) * 1500 - (-637 + 17 * 40) * (-637 + 17 * 40) ≠ 0 ∧ (-637:ℝ) + 17 * 40 ≠ 0 := by
+  norm_num
+
+/-- `efjc_distance_derivative` is the derivative of `efjc_distance` below the code's overflow guard
+    (`2 f L_p / kT < 300`; above it the code replaces `1/sinh²` by 0 and `coth` by 1). -/
+theorem efjc_distance_hasDerivAt (f Lp Lc St kT : ℝ) (hf : 0 < f) (hLp : 0 < Lp) (hkT : 0 < kT) (hSt : 0 < St)
+    (hx : f * (2 * Lp / kT) < 300) :
+    HasDerivAt (fun f => efjcDistance f Lp Lc St kT) (efjcDistanceDeriv f Lp Lc St kT) f :=
+  efjc_distance_hasDerivAt_aux f Lp Lc St kT hf hLp hkT hSt hx
+example : (0:ℝ) < 5 ∧ (5:ℝ) * (2 * 1.4 / 4.11) < 300 := by norm_num
+
 end Verif.C13
